@@ -364,6 +364,13 @@ def judge_program(col, prog, queries, base, other, bw, ow, case, ref, scales=Non
                 va, vb = a.get('v', 0), b.get('v', 0)
                 if va == 0 and vb == 0:
                     continue
+                # ... and a true net change of zero comes out as plus or minus a few storage grains: a refusal under
+                # one configuration and a value of a few grains (of the coarser one) under the other are the same answer
+                pu_, fam_ = split_unit(q['unit'])
+                g_ = sum((4 * nsteps + 8) * c.grain * (1.0 if sp.enzyme else c.mol_mult) * abs(sp.factor(fam_)) / prefix_f(pu_)
+                         for c in (bw.cfg, ow.cfg) for sp in ref.subs.values())
+                if isinstance(va, (int, float)) and isinstance(vb, (int, float)) and abs(va) <= g_ and abs(vb) <= g_:
+                    continue
             col.report(f"config={tag}/tracking-outcome-differs/{q['q']}", {'query': q, 'baseline': a, 'other': b}, case)
             return
         if 'exc' in a:
